@@ -47,6 +47,9 @@ struct FuzzServer {
     server: AnyServer,
     keys: Vec<KeyM>,
     payload: u16,
+    /// names around the catalog's contents and the key specifications (for seed corpora)
+    pool: Vec<(vmodel::name::MName, u16)>,
+    key_specs: Vec<crate::srvrun::KeySpec>,
 }
 
 /// A fixed table of servers (no state leaks between iterations: RRL is off,
@@ -71,9 +74,10 @@ fn servers() -> &'static Vec<FuzzServer> {
             };
             let keys = key_specs().new_tree(&mut runner).expect("keys").current();
             let cfg = ServerCfg { payload: *payload, keys, rrl: None };
-            let (built, _) = build(&catalog);
+            let (built, model) = build(&catalog);
             let server = make_server(&built, &cfg);
-            out.push(FuzzServer { server, keys: keys_for_scan(&cfg), payload: cfg.payload.max(512) });
+            let pool = crate::checks::c05::query_names(&model, &[], 200);
+            out.push(FuzzServer { server, keys: keys_for_scan(&cfg), payload: cfg.payload.max(512), pool, key_specs: cfg.keys.clone() });
         }
         out
     })
@@ -137,6 +141,104 @@ pub fn run_bytes(target: &str, data: &[u8], st: &mut Stats) -> Vec<(&'static str
             out
         }
         _ => Vec::new(),
+    }
+}
+
+////////////////////////////////////////////////////////////////////////
+// SEED CORPORA                                                       //
+////////////////////////////////////////////////////////////////////////
+
+/// Writes small seed corpora for the four targets under /verif/corpus/ from the
+/// checks' own generators with fixed seeds (`vcheck CORPUS quick`).  The files are
+/// committed; campaigns start from them (and, separately, from an empty corpus).
+pub fn write_seed_corpus() {
+    fn runner(seed: u64) -> TestRunner {
+        TestRunner::new(Config { rng_seed: RngSeed::Fixed(seed), failure_persistence: None, ..Config::default() })
+    }
+    fn put(target: &str, i: usize, data: &[u8]) {
+        let dir = format!("{VERIF_ROOT}/corpus/{target}");
+        let _ = std::fs::create_dir_all(&dir);
+        let _ = std::fs::write(format!("{dir}/seed-{i:03}"), data);
+    }
+    // fz_name: [start selector (2 octets)] ++ buffer
+    let mut r = runner(0xC0_14);
+    let mut i = 0;
+    while i < 40 {
+        let c = if i % 2 == 0 { c14::case_strategy().new_tree(&mut r).unwrap().current() } else { c14::boundary_strategy().new_tree(&mut r).unwrap().current() };
+        if c.buf.len() > 280 {
+            continue;
+        }
+        // a selector with sel % (len + 2) == start
+        let sel = (c.start % (c.buf.len() + 2)) as u16;
+        let mut data = sel.to_be_bytes().to_vec();
+        data.extend_from_slice(&c.buf);
+        put("fz_name", i, &data);
+        i += 1;
+    }
+    // fz_reader: [n] ++ n selectors ++ message
+    let mut r = runner(0xC0_15);
+    let mut i = 0;
+    while i < 40 {
+        let c = c15::case_strategy().new_tree(&mut r).unwrap().current();
+        let msg = c.msg.render_clean();
+        if msg.len() > 500 {
+            continue;
+        }
+        let sels: Vec<u8> = c
+            .ops
+            .iter()
+            .take(30)
+            .map(|op| match op {
+                c15::Op::Header => 0u8,
+                c15::Op::ReadQuestion => 1,
+                c15::Op::SkipQuestion => 2,
+                c15::Op::ReadRr => 3,
+                c15::Op::SkipRr => 5,
+                c15::Op::Peek { owner_calls, end } => {
+                    (match end {
+                        c15::PeekEnd::Drop => 6,
+                        c15::PeekEnd::Skip => 7,
+                        c15::PeekEnd::Parse => 8,
+                    }) + 12 * (owner_calls % 3)
+                }
+                c15::Op::Mark => 9,
+                c15::Op::Rewind => 10,
+                c15::Op::AtEom => 11,
+            })
+            .collect();
+        let mut data = vec![sels.len() as u8];
+        data.extend_from_slice(&sels);
+        data.extend_from_slice(&msg);
+        put("fz_reader", i, &data);
+        i += 1;
+    }
+    // fz_zonefile: text
+    let mut r = runner(0xC0_24);
+    let mut i = 0;
+    while i < 40 {
+        let c = c23::raw_case().new_tree(&mut r).unwrap().current();
+        if c.text.len() > 380 || c.text.is_empty() {
+            continue;
+        }
+        put("fz_zonefile", i, &c.text);
+        i += 1;
+    }
+    // fz_server: [server / transport] ++ request
+    let mut r = runner(0xC0_01);
+    let table = servers();
+    let mut i = 0;
+    while i < 60 {
+        let spec = crate::reqgen::req_spec(10, 0.15).new_tree(&mut r).unwrap().current();
+        let si = i % table.len();
+        let fs = &table[si];
+        let bytes = crate::reqgen::render(&spec, &fs.pool, &fs.key_specs, now_secs()).bytes;
+        if bytes.len() > 560 {
+            continue;
+        }
+        let mut data = vec![(si as u8) | if spec.tcp { 0x80 } else { 0 }];
+        data.extend_from_slice(&bytes);
+        put("fz_server", i, &data);
+        i += 1;
     }
 }
 
